@@ -269,6 +269,8 @@ class DirectedMultigraph : private LabeledDirectedGraph<EdgeMultiplicity> {
             edgeNumber--;
         }
         for (VertexIndex i = 0; i < size; ++i)
+            edgeLabels.erase({vertex, i});
+        for (VertexIndex i = 0; i < size; ++i)
             removeAllEdges(i, vertex);
     }
 
